@@ -159,7 +159,7 @@ type Body struct {
 }
 
 type Step struct {
-	Kind string `json:"kind"` // setup: mkdag mkshow rec live unlive stubexit;  api: post create delete details;  exec: run the last spawned argv with the REAL binary
+	Kind string `json:"kind"` // setup: mkdag mkshow rec surgery live unlive stubexit;  api: post create delete details;  exec: run the last spawned argv with the REAL binary
 	Name string `json:"name,omitempty"`
 	Text string `json:"text,omitempty"`
 	// rec
@@ -177,6 +177,13 @@ type Step struct {
 	Spawns [][]string `json:"spawns"`
 	Stops  []string   `json:"stops"`
 	Note   string     `json:"note,omitempty"`
+	// surgery: file-level shapes a kill leaves, made from the real file of the run recorded with Stamp:
+	// "torn-prefix" (a proper prefix of the JSON of Lines[0] appended, no newline), "torn-nonl" (the complete JSON of
+	// Lines[0] appended without its newline), "twin" (the compacted copy X_c.dat written next to the original X.dat)
+	Mode string `json:"mode,omitempty"`
+	// post mark-*: what the real client answers before / after the call (GetStatusByRequestID, recent history, latest)
+	QBefore *Queries `json:"q_before,omitempty"`
+	QAfter  *Queries `json:"q_after,omitempty"`
 	// exec: what the real `blackdagger start ...` run saw / recorded, and what a start with exactly the API's
 	// parameters must see (dag.Load in this process - independent of cmd/start.go)
 	Argv     []string `json:"argv,omitempty"`
@@ -187,6 +194,12 @@ type Step struct {
 	ExecNote string   `json:"exec_note,omitempty"`
 	Diff     []FileDiff `json:"diff"`
 	Dump   *Dump      `json:"dump,omitempty"`
+}
+
+type Queries struct {
+	ByReq  *Line  `json:"byreq"`  // client.GetStatusByRequestID(dag, body.requestId); nil = error
+	Recent []Line `json:"recent"` // client.GetRecentHistory(dag, 100), latest first
+	Latest *Line  `json:"latest"` // client.GetLatestStatus(dag)
 }
 
 type Case struct {
@@ -451,6 +464,77 @@ func (e *env) stopLive(l *liveSrv) {
 	delete(e.live, l.loc)
 }
 
+func toLine(st *model.Status) *Line {
+	if st == nil {
+		return nil
+	}
+	ln := &Line{R: st.RequestID, S: int(st.Status), Nodes: []NodeSt{}}
+	for _, n := range st.Nodes {
+		ln.Nodes = append(ln.Nodes, NodeSt{N: n.Step.Name, S: int(n.Status)})
+	}
+	return ln
+}
+
+// the history queries of the real client (the server's own, long-lived client: its caches included)
+func (e *env) queries(name, reqid string) *Queries {
+	q := &Queries{Recent: []Line{}}
+	st, err := e.cli.GetStatus(name)
+	if err != nil || st == nil || st.DAG == nil {
+		return q
+	}
+	if reqid != "" {
+		if s, err := e.cli.GetStatusByRequestID(st.DAG, reqid); err == nil {
+			q.ByReq = toLine(s)
+		}
+	}
+	for _, sf := range e.cli.GetRecentHistory(st.DAG, 100) {
+		q.Recent = append(q.Recent, *toLine(sf.Status))
+	}
+	if s, err := e.cli.GetLatestStatus(st.DAG); err == nil {
+		q.Latest = toLine(s)
+	}
+	return q
+}
+
+func (e *env) surgery(s *Step) {
+	s.Loc = e.loc(s.Name)
+	stamp := base.Add(time.Duration(s.Stamp) * time.Second).Format("20060102.15:04:05.000")
+	ms, _ := filepath.Glob(filepath.Join(e.data, "*", "*."+stamp+".*.dat"))
+	var orig string
+	for _, m := range ms {
+		if !strings.HasSuffix(m, "_c.dat") {
+			orig = m
+		}
+	}
+	if orig == "" {
+		s.Note, s.Code = "no original history file for that stamp", 1
+		return
+	}
+	switch s.Mode {
+	case "torn-prefix", "torn-nonl":
+		b, _ := mkStatus(s.Name, s.Lines[0]).ToJSON()
+		if s.Mode == "torn-prefix" {
+			b = b[:len(b)/2]
+		}
+		f, err := os.OpenFile(orig, os.O_APPEND|os.O_WRONLY, 0o644)
+		if err != nil {
+			s.Note, s.Code = err.Error(), 1
+			return
+		}
+		_, _ = f.Write(b)
+		_ = f.Close()
+	case "twin":
+		b, _ := os.ReadFile(orig)
+		lines := strings.Split(strings.TrimRight(string(b), "\n"), "\n")
+		twin := strings.TrimSuffix(orig, ".dat") + "_c.dat"
+		if err := os.WriteFile(twin, []byte(lines[len(lines)-1]+"\n"), 0o644); err != nil {
+			s.Note, s.Code = err.Error(), 1
+		}
+	default:
+		s.Note, s.Code = "unknown surgery mode", 1
+	}
+}
+
 func code(r middleware.Responder) int {
 	rec := httptest.NewRecorder()
 	r.WriteResponse(rec, runtime.JSONProducer())
@@ -494,6 +578,8 @@ func (e *env) apply(s *Step) {
 		_ = os.WriteFile(filepath.Join(e.dags, s.Name+".yaml"), []byte("steps:\n  - name: show\n    command: "+script+"\n"), 0o644)
 	case "exec":
 		e.realRun(s)
+	case "surgery":
+		e.surgery(s)
 	case "rec":
 		db := jsondb.New(e.data, false)
 		s.Loc = e.loc(s.Name)
@@ -533,7 +619,14 @@ func (e *env) apply(s *Step) {
 		if s.Body.Action != nil && *s.Body.Action == "save" {
 			b.Value = string(e.text(s.Body.Value)) // the case names the text by its id
 		}
+		isMark := s.Body.Action != nil && (*s.Body.Action == "mark-success" || *s.Body.Action == "mark-failed")
+		if isMark {
+			s.QBefore = e.queries(s.Name, s.Body.RequestID)
+		}
 		s.Code = code(e.api.DagsPostDagActionHandler.Handle(dags.PostDagActionParams{Body: b, DagID: s.Name}))
+		if isMark {
+			s.QAfter = e.queries(s.Name, s.Body.RequestID)
+		}
 	case "create":
 		s.Code = code(e.api.DagsCreateDagHandler.Handle(dags.CreateDagParams{
 			Body: dags.CreateDagBody{Action: s.Body.Action, Value: &s.Body.Value}}))
@@ -724,8 +817,28 @@ func stateSetup(state string) []Step {
 		st = append(st, Step{Kind: "rec", Name: "a", Stamp: 2000, Lines: []Line{line(reqCur, 1, 1, 0), line(reqCur, 3, 4, 3)}, Closed: true})
 	case "crashed":
 		st = append(st, Step{Kind: "rec", Name: "a", Stamp: 2000, Lines: []Line{line(reqCur, 1, 4, 1)}, Closed: false})
+	case "crashed-torn":
+		// killed in the middle of writing a status: the file ends in a proper prefix of a line
+		st = append(st, Step{Kind: "rec", Name: "a", Stamp: 2000, Lines: []Line{line(reqCur, 1, 1, 0), line(reqCur, 1, 4, 1)}, Closed: false},
+			Step{Kind: "surgery", Name: "a", Stamp: 2000, Mode: "torn-prefix", Lines: []Line{line(reqCur, 1, 4, 4)}})
+	case "crashed-nonl":
+		// killed after the last byte of a status and before its newline
+		st = append(st, Step{Kind: "rec", Name: "a", Stamp: 2000, Lines: []Line{line(reqCur, 1, 1, 0)}, Closed: false},
+			Step{Kind: "surgery", Name: "a", Stamp: 2000, Mode: "torn-nonl", Lines: []Line{line(reqCur, 1, 4, 1)}})
+	case "finished-twin":
+		// killed during Close: the compacted copy is published, the original not yet removed
+		st = append(st, Step{Kind: "rec", Name: "a", Stamp: 2000, Lines: []Line{line(reqCur, 1, 1, 0), line(reqCur, 2, 4, 2)}, Closed: false},
+			Step{Kind: "surgery", Name: "a", Stamp: 2000, Mode: "twin"})
 	}
 	return st
+}
+
+// the file-level crash shapes: the rows that look at or edit the recorded run
+var crashShapes = []string{"crashed-torn", "crashed-nonl", "finished-twin"}
+
+func shapeRow(name string) bool {
+	return strings.HasPrefix(name, "mark-") || name == "start/params1" || name == "stop" || name == "details" ||
+		name == "retry/present" || name == "delete" || name == "rename/fresh"
 }
 
 type row struct {
@@ -895,6 +1008,18 @@ func generated(tier string, rng *vh.Rng) []*Case {
 			steps = append(steps, r.pre...)
 			steps = append(steps, r.step)
 			cs = append(cs, &Case{K: k, Stream: "table", State: st, Row: r.name, Steps: steps})
+			k++
+		}
+	}
+	for _, st := range crashShapes {
+		for _, r := range rows() {
+			if !shapeRow(r.name) {
+				continue
+			}
+			steps := append([]Step{}, stateSetup(st)...)
+			steps = append(steps, r.pre...)
+			steps = append(steps, r.step)
+			cs = append(cs, &Case{K: k, Stream: "table-shapes", State: st, Row: r.name, Steps: steps})
 			k++
 		}
 	}
